@@ -81,6 +81,45 @@ def run_bell(ctx, states, rng, nmodel):
     ctx.extra['states_with_model_checks'] = done_models
 
 
+def run_xstate(ctx, states, rng, limit):
+    """X states (not in the local-unitary orbit of Bell-diagonal states): exact Yu-Eberly concurrence"""
+    import numqi
+    E = numqi.entangle
+    xs = [s for s in states if s['cfg']['kind'] == 'xstate']
+    if len(xs) > limit:
+        xs = rng.sample(xs, limit)
+    for st in xs:
+        cfg, obs = st['cfg'], st['obs']
+        rho = np.array([[complex(e[0], e[1]) for e in row] for row in obs['rho']]) / obs['den']
+        C, npt = rf(obs['c']), obs['npt']
+        data = dict(populations_sqrt=cfg['n'], w=cfg['w'], z=cfg['z'], local_unitaries=[cfg['ua'], cfg['ub']], concurrence=C)
+        ctx.case(('xstate', tuple(cfg['n']), tuple(cfg['w']), tuple(cfg['z']), tuple(cfg['ua']), tuple(cfg['ub'])))
+
+        def bad(fn, clause, extra=None):
+            ctx.violation('C13:%s:xstate:%s' % (fn, clause), '%s: %s (X state)' % (fn, clause), dict(data, **(extra or {})))
+        try:
+            c = float(E.get_concurrence_2qubit(rho))
+            ng = float(E.get_negativity(rho, (2, 2)))
+            ef = float(E.get_eof_2qubit(rho))
+            gm = float(E.get_gme_2qubit(rho))
+            ctx.evaluations += 1
+            vals = dict(concurrence=c, negativity=ng, eof=ef, gme=gm)
+            if not all(np.isfinite(v) for v in vals.values()): bad('two-qubit-measures', 'non-finite value', vals)
+            if core.gt(abs(c - C), 1e-6): bad('get_concurrence_2qubit', 'differs from 2 max(0, |w| - sqrt(rho22 rho33), |z| - sqrt(rho11 rho44))', vals)
+            if core.gt(abs(ef - eof_of_c(C)), 1e-5): bad('get_eof_2qubit', 'not the monotone function h((1+sqrt(1-C^2))/2) of the concurrence', vals)
+            if core.gt(abs(math.sqrt(max(0.0, 1 - (1 - 2 * gm) ** 2)) - C), 1e-6): bad('get_gme_2qubit', 'not the monotone function (1-sqrt(1-C^2))/2 of the concurrence', vals)
+            if not (-1e-9 <= c <= 1 + 1e-9 and -1e-9 <= ef <= math.log(2) + 1e-9 and -1e-9 <= gm <= 0.5 + 1e-9 and -1e-9 <= ng <= 0.5 + 1e-9): bad('two-qubit-measures', 'value outside its range', vals)
+            if npt or C == 0:
+                # (at the PPT boundary |w| = sqrt(rho22 rho33) the verdicts are within rounding of the threshold)
+                boundary = (not npt) and (abs(cfg['w'][0]) + abs(cfg['w'][1]) == cfg['n'][1] * cfg['n'][2] or abs(cfg['z'][0]) + abs(cfg['z'][1]) == cfg['n'][0] * cfg['n'][3])
+                if not boundary:
+                    if E.is_ppt(rho, (2, 2)) != (not npt): bad('is_ppt', 'PPT verdict differs from the exact one', vals)
+                    for nm, v in vals.items():
+                        if (v > 1e-7) != npt: bad('two-qubit-measures', '%s is non-zero although PPT / zero although NPT' % nm, vals)
+        except Exception as ex:
+            ctx.violation('C13:exception:xstate', type(ex).__name__ + ': ' + str(ex)[:160], data)
+
+
 def run_lu_orbit(ctx, states, rng, count):
     """invariance under ARBITRARY local unitaries: the closed forms of U_A (x) U_B rho (U_A (x) U_B)^dagger equal the exact values of rho
     (provenance: local-unitary orbit of an exactly known state); includes the maximally entangled orbit where C = 1 exactly"""
@@ -185,7 +224,7 @@ def run(ctx):
     ctx.rule = ('Bell-diagonal states on an integer weight grid (all ranks 1..4, separable-threshold and near-threshold weights) x 16 pairs of local phased permutations; '
                 'pure states with Gaussian-integer amplitudes in {-1,0,1}; convex-roof models at random parameter points of scales 0.1/1/10 with ensemble sizes rank..8 on a subset; distinct by state')
     ctx.assumptions = ['TLC/SANY correct', 'tolerances 1e-6 (sqrt/eigen based closed forms), 1e-5 (EOF), 1e-7 (upper-bound slack)']
-    ctx.not_covered = ['generic rank-4 states outside the Bell-diagonal local-unitary orbit', 'the relation E = h(C) as an identity between two floating results (it is checked through the exact C)']
+    ctx.not_covered = ['generic states outside the Bell-diagonal local-unitary orbit and the X-state family', 'the relation E = h(C) as an identity between two floating results (it is checked through the exact C)']
     r = tlc.run('contract/MC_TwoQubit.tla', 'contract/MC_TwoQubit_%s.cfg' % ('q' if quick else 't'), dump=True, timeout=3000)
     ctx.add_model('MC_TwoQubit', r)
     states = list(tlc.parse_dump(r))
@@ -193,6 +232,7 @@ def run(ctx):
     run_lu_orbit(ctx, states, rng, 3000 if quick else 30000)
     run_model_reuse(ctx, states, rng, 8 if quick else 80)
     run_pure(ctx, states, rng, 800 if quick else 10**9)
+    run_xstate(ctx, states, rng, 2500 if quick else 10**9)
     ctx.traces += len(states)
     b = [s for s in states if s['cfg']['kind'] == 'bell'][40]
     ctx.sample(dict(kind='bell-diagonal', weights=b['cfg']['n'], local_unitaries=[b['cfg']['ua'], b['cfg']['ub']], concurrence=b['obs']['c'], negativity=b['obs']['neg']))
